@@ -314,13 +314,29 @@ pub struct Judged {
 /// Runs every case and applies the detection oracle: every honest recipient of a consumed bad value
 /// returns Err; no honest party panics or hangs.
 pub fn judge_detection(rep: &mut crate::util::Report, cfgs: &[Config], cases: &[FCase], prop: &str) -> Judged {
-    let results = crate::util::par_map(cases, |w, _, c| {
-        if matches!(c.rule, Rule::Unread | Rule::Substitution) {
-            return None;
-        }
-        let cfg = &cfgs[c.cfg];
-        Some(run_faults(cfg, faults_of(cfg, c), vec![], false, w).0)
-    });
+    // a wall budget only stops the enumeration (reported as a cap), it never decides a verdict
+    let budget = crate::util::Budget::new(if rep.tier.is_thorough() { 1500.0 } else { 120.0 });
+    let stop = std::sync::atomic::AtomicBool::new(false);
+    let raw = crate::util::par_map_until(
+        cases,
+        |w, _, c| {
+            if budget.exhausted() {
+                stop.store(true, std::sync::atomic::Ordering::Relaxed);
+            }
+            if matches!(c.rule, Rule::Unread | Rule::Substitution) {
+                return None;
+            }
+            let cfg = &cfgs[c.cfg];
+            Some(run_faults(cfg, faults_of(cfg, c), vec![], false, w).0)
+        },
+        &stop,
+    );
+    let not_run = raw.iter().filter(|r| r.is_none()).count();
+    if not_run > 0 {
+        rep.set("cases_not_run_wall_cap", serde_json::json!(not_run));
+        rep.exhaustive = Some(false);
+    }
+    let results: Vec<Option<FResult>> = raw.into_iter().map(|r| r.flatten()).collect();
     let mut j = Judged { evaluations: 0, nontrivial: Default::default(), trivial: 0, detected: 0 };
     for (c, r) in cases.iter().zip(results.iter()) {
         let cfg = &cfgs[c.cfg];
